@@ -143,6 +143,7 @@ struct E3(u32);
 struct MwTag(u32); // extension type 4, inserted by the middleware of scope /s1
 struct ConnTag(u32); // conn_data type 0
 struct ConnAux(u32); // conn_data type 1
+struct Tenant(u32); // app_data type 4: attached per request by the outermost middleware (x-tenant header)
 
 #[derive(Clone, Default)]
 struct Plan {
@@ -182,6 +183,11 @@ struct Dump {
     ci_host: Option<String>,
     ci_peer: Option<String>,
     cookies: Option<usize>,
+    // early-answered requests: by-path fall-back of match_pattern/match_name (oracle only)
+    #[serde(default)]
+    fb_pattern: Option<String>,
+    #[serde(default)]
+    fb_name: Option<String>,
 }
 
 fn ver_code(v: Version) -> u8 {
@@ -255,6 +261,7 @@ fn take_dump(req: &HttpRequest) -> Dump {
             req.app_data::<ScopeOnly>().map(|x| x.0),
             req.app_data::<ResOnly>().map(|x| x.0),
             req.app_data::<RootOnly>().map(|x| x.0),
+            req.app_data::<Tenant>().map(|x| x.0),
         ],
         conn: vec![req.conn_data::<ConnTag>().map(|x| x.0), req.conn_data::<ConnAux>().map(|x| x.0)],
         query: req.query_string().to_string(),
@@ -263,6 +270,8 @@ fn take_dump(req: &HttpRequest) -> Dump {
         ci_host: None,
         ci_peer: None,
         cookies: None,
+        fb_pattern: None,
+        fb_name: None,
     }
 }
 
@@ -338,6 +347,31 @@ macro_rules! build_app {
             .service(web::resource("/top/{id}").app_data(ResOnly(22)).to(dump_handler))
             .service(web::resource("/").to(dump_handler))
             .default_service(web::to(dump_handler))
+            // inner middleware: answers early (403) without calling the router when x-deny is set;
+            // it dumps what it sees itself (the handler is never reached)
+            .wrap_fn(|req: ServiceRequest, srv| {
+                type Fut = std::pin::Pin<Box<dyn std::future::Future<Output = Result<ServiceResponse, actix_web::Error>>>>;
+                if req.headers().contains_key("x-deny") {
+                    let mut d = take_dump(req.request());
+                    d.fb_pattern = d.pattern.take();
+                    d.fb_name = d.name.take();
+                    LAST_DUMP.with(|l| *l.borrow_mut() = Some(d));
+                    let res = req.into_response(HttpResponse::Forbidden().finish());
+                    Box::pin(async move { Ok(res) }) as Fut
+                } else {
+                    Box::pin(srv.call(req)) as Fut
+                }
+            })
+            // outermost middleware, ahead of all routing: per-tenant data container chosen by a header
+            .wrap_fn(|mut req: ServiceRequest, srv| {
+                let tenant = req.headers().get("x-tenant").and_then(|v| v.to_str().ok()).and_then(|s| s.parse::<u32>().ok());
+                if let Some(n) = tenant {
+                    let mut c = actix_web::dev::Extensions::new();
+                    c.insert(Tenant(n));
+                    req.add_data_container(Rc::new(c));
+                }
+                srv.call(req)
+            })
     };
 }
 
@@ -413,12 +447,24 @@ enum Act {
     Ext(u8, u32),
 }
 
+fn tenant_of(spec: &ReqSpec) -> Option<u32> {
+    spec.headers.iter().find(|(k, _)| k == "x-tenant").and_then(|(_, v)| v.parse().ok())
+}
+fn is_denied(spec: &ReqSpec) -> bool {
+    spec.headers.iter().any(|(k, _)| k == "x-deny")
+}
+
 /// the request target and what the router is expected to do with it
 fn expand(spec: &ReqSpec) -> (String, Vec<Act>) {
     let rt = &ROUTES[spec.route];
     let mut path = String::new();
     let mut acts = vec![];
     let mut pi = 0;
+    // app-level middleware runs between AppInitService::call and the router
+    if let Some(n) = tenant_of(spec) {
+        acts.push(Act::Data(vec![(4, n)]));
+    }
+    let denied = is_denied(spec);
     for lv in rt.levels {
         let mut rel = 0usize; // offset inside the unprocessed part
         let mut adds = vec![];
@@ -439,6 +485,9 @@ fn expand(spec: &ReqSpec) -> (String, Vec<Act>) {
                     rel += qlen;
                 }
             }
+        }
+        if denied {
+            continue; // answered before the router: the path is built, nothing is captured
         }
         acts.extend(adds);
         acts.push(Act::Skip(rel));
@@ -660,7 +709,8 @@ fn run_history(steps: &[Step]) -> HistoryOut {
                             tokio::task::yield_now().await;
                         }
                         let w = link.io.take_written();
-                        if !(w.starts_with(b"HTTP/1.1 200") || w.starts_with(b"HTTP/1.0 200")) {
+                        let want: &[u8] = if is_denied(spec) { b"403" } else { b"200" };
+                        if !(w.len() > 12 && w.starts_with(b"HTTP/1.") && &w[9..12] == want) {
                             note = format!("conn response {:?} to {:?}", String::from_utf8_lossy(&w[..w.len().min(40)]), String::from_utf8_lossy(&raw_request(spec, &uri)));
                         }
                         // the dispatcher owns and drops the response's HttpRequest itself
@@ -862,8 +912,12 @@ fn coq_req(spec: &ReqSpec) -> String {
     if spec.conn_info {
         ins.insert(0, (5, 1));
     }
+    let denied = is_denied(spec);
+    if denied {
+        ins.clear(); // the handler is never reached
+    }
     // via = conn: the dispatcher holds the response's request until the response is written; no hold
-    format!("SReq {} {} {} {} {}", q, acts, coq_cont(&ins), coq_bool(spec.stash), coq_bool(spec.hold && spec.via != "conn"))
+    format!("SReq {} {} {} {} {}", q, acts, coq_cont(&ins), coq_bool(spec.stash && !denied), coq_bool(spec.hold && spec.via != "conn"))
 }
 
 fn coq_case(steps: &[Step]) -> String {
@@ -907,12 +961,14 @@ const HDRS: &[(&str, &[&str])] = &[
     ("cookie", &["a=1", "a=1; b=2"]),
     ("forwarded", &["for=10.0.0.1;host=fwd.example"]),
     ("host", &["one.example", "two.example:8080"]),
+    ("x-deny", &["1"]),
     ("x-forwarded-for", &["10.9.8.7"]),
+    ("x-tenant", &["1", "2", "77"]),
     ("x-token", &["secret-1", "secret-2", ""]),
 ];
 
 fn gen_req(rng: &mut Rng, conn_ok: bool, httptest_ok: bool) -> ReqSpec {
-    let route = if rng.chance(1, 5) { *rng.pick(&[5usize, 6, 9, 10]) } else { *rng.pick(&[0usize, 1, 2, 2, 3, 4, 4, 7, 8]) };
+    let route = if rng.chance(1, 4) { *rng.pick(&[5usize, 6, 9, 9, 9, 10]) } else { *rng.pick(&[0usize, 1, 2, 2, 3, 4, 4, 7, 8]) };
     let rt = &ROUTES[route];
     let mut params = vec![];
     for lv in rt.levels {
@@ -933,7 +989,7 @@ fn gen_req(rng: &mut Rng, conn_ok: bool, httptest_ok: bool) -> ReqSpec {
     .to_string();
     let mut headers = vec![];
     for (k, vs) in HDRS {
-        if rng.chance(1, 3) {
+        if (*k == "x-deny" && rng.chance(1, 8)) || (*k != "x-deny" && rng.chance(1, 3)) {
             headers.push((k.to_string(), rng.pick(vs).to_string()));
         }
     }
@@ -1047,6 +1103,15 @@ fn make_case(id: String, steps: Vec<Step>) -> (CaseOut, bool) {
         if let Step::Req(r) = s {
             tags.push(format!("via:{}", r.via));
             tags.push(format!("route:{}", r.route));
+            if tenant_of(r).is_some() {
+                tags.push("middleware-attaches-data-container".into());
+                if ROUTES[r.route].levels.is_empty() || is_denied(r) {
+                    tags.push("container-on-unrouted-request".into());
+                }
+            }
+            if is_denied(r) {
+                tags.push("answered-early-by-middleware".into());
+            }
             if r.stash {
                 tags.push("handler-stashes-clone".into());
             }
